@@ -292,13 +292,19 @@ class Problem:
 
         terms = self.H.data
         zo = self.zero_order
+        h0_is_zero = []
+        for b in range(self.nb):
+            lv = self.E[self.off[b] : self.off[b + 1]]
+            h0_is_zero.append(all(e.const_value() == (0, 0) for e in lv) and self.nb > 1)
 
         self.h_calls = []
 
         def Heval(i, j, *order):
             self.h_calls.append((int(i), int(j), *map(int, order)))
             if tuple(order) == zo:
-                return h0_blocks[i] if i == j else zero
+                if i != j or h0_is_zero[i]:
+                    return zero  # an exactly vanishing block is the `zero` sentinel, as the public input formats produce it
+                return h0_blocks[i]
             M = terms.get(tuple(order))
             if M is None:
                 return zero
@@ -458,7 +464,9 @@ def _numeric(sizes, E, terms, hermitian, fd, max_order, callback, series_only=Fa
 
     def Heval(i, j, *order):
         if tuple(order) == zo:
-            return h0_blocks[i] if i == j else zero
+            if i != j or (nb > 1 and not np.any(h0_blocks[i])):
+                return zero  # exactly vanishing block = `zero` sentinel, as in the symbolic run and the public formats
+            return h0_blocks[i]
         M = terms.get(tuple(order))
         if M is None:
             return zero
